@@ -1,7 +1,7 @@
 (* C10 — the `str::trim` of Name::new: what it removes in general and what it removes from the parts the collector returns.
-   The white space of `str::trim` (Unicode White_Space) is a subset of the white space of the lexer; among the name characters
-   only U+1680 is in it.  So on collected parts the trim drops U+1680 at the two ends of a word and nothing else; on an input
-   without U+1680 it is the identity and Name::new is the plain joining loop.
+   The white space of `str::trim` (Unicode White_Space) is a subset of the white space of the lexer, and no white space character of
+   the lexer is a name character (since the repair of is_name_start_char; before it U+1680 was both).  So on collected parts the trim
+   is the identity, for every input, and Name::new is the plain joining loop.
    Owner: builder-parse. *)
 From Coq Require Import List NArith Bool Arith Lia.
 From DV Require Import C10.Model C10.Layout C10.Shape.
@@ -10,7 +10,7 @@ Import ListNotations.
 (* ------------------------------------------------------------------ character classes *)
 
 Ltac cls H :=
-  unfold is_white_space, is_name_part, is_name_start, is_digit, is_ws, is_vspace, is_add_sym, between in H;
+  unfold is_white_space, is_name_part_orig, is_name_start_orig, is_digit, is_ws, is_vspace, is_add_sym, between in H;
   repeat rewrite ?orb_true_iff, ?andb_true_iff, ?N.leb_le, ?N.eqb_eq in H.
 
 Lemma white_space_is_ws : forall c, is_white_space c = true -> is_ws c = true.
@@ -29,8 +29,19 @@ Proof.
   cls H1. unfold is_white_space, between. repeat rewrite ?orb_true_iff, ?andb_true_iff, ?N.leb_le, ?N.eqb_eq. lia.
 Qed.
 
-Lemma name_part_white_space : forall c, is_name_part c = true -> is_white_space c = true -> c = 5760%N.
+(* before the repair of is_name_start_char one name character had the property White_Space *)
+Lemma name_part_white_space_orig : forall c, is_name_part_orig c = true -> is_white_space c = true -> c = 5760%N.
 Proof. intros c H1 H2. cls H1. cls H2. lia. Qed.
+
+(* now no name character has it: str::trim leaves a word alone *)
+Lemma name_part_not_white_space : forall c, is_name_part c = true -> is_white_space c = false.
+Proof.
+  intros c H. destruct (is_white_space c) eqn:E; [|reflexivity].
+  pose proof (white_space_is_ws c E) as Hw. rewrite (name_part_not_ws c H) in Hw. discriminate Hw.
+Qed.
+
+Lemma name_part_white_space : forall c, is_name_part c = true -> is_white_space c = true -> c = 5760%N.
+Proof. intros c H1 H2. rewrite (name_part_not_white_space c H1) in H2. discriminate H2. Qed.
 
 Lemma add_sym_not_white_space : forall c, is_add_sym c = true -> is_white_space c = false.
 Proof. intros c H1. apply not_true_is_false. intro H2. cls H1. cls H2. lia. Qed.
@@ -163,6 +174,17 @@ Proof.
   - constructor; [apply add_sym_not_white_space; exact Hs|constructor].
 Qed.
 
+(* a word or an additional symbol has no White_Space character: the trim leaves it alone *)
+Lemma part_nws_all : forall p, word p \/ symp p -> Forall nws p.
+Proof.
+  intros p [[_ Hw]|(c & -> & Hs)].
+  - eapply Forall_impl; [|exact Hw]. intros c Hc. apply name_part_not_white_space. exact Hc.
+  - constructor; [apply add_sym_not_white_space; exact Hs|constructor].
+Qed.
+
+Lemma part_trim_id : forall p, word p \/ symp p -> trim p = p.
+Proof. intros p Hp. apply trim_id. apply part_nws_all. exact Hp. Qed.
+
 Lemma shape_of_parts : forall inp parts cps, Forall2 (part_ok inp) parts cps -> Forall (fun p => word p \/ symp p) parts.
 Proof. intros inp parts cps H. induction H as [|p e ps es Hp _ IH]; constructor; [|exact IH]. destruct Hp as [[H _]|H]; [left|right]; exact H. Qed.
 
@@ -190,7 +212,23 @@ Proof.
   rewrite <- (firstn_skipn k parts) in Hn. apply Forall_app in Hn. tauto.
 Qed.
 
-(* `a+<U+1680> b`: the part that is U+1680 alone is trimmed to nothing, but it still separates: the name is `a+ b`, not `a+b`;
+(* for every input the trim is the identity on the collected parts (no name character is White_Space since the repair of
+   is_name_start_char): the name of every prefix is the plain joining loop *)
+Theorem collect_trim_all : forall inp pos parts cps endpos,
+  pos < length inp -> is_name_start (ch inp pos) = true -> collect inp pos = (parts, cps, endpos) ->
+  map trim parts = parts /\ forall k, name_new (firstn k parts) = name_join (firstn k parts).
+Proof.
+  intros inp pos parts cps endpos Hpos Hstart Hc.
+  destruct (collect_shape _ _ _ _ _ Hpos Hstart Hc) as (Hsh & _).
+  pose proof (shape_of_parts _ _ _ Hsh) as Hs.
+  assert (Hn : Forall (Forall nws) parts).
+  { eapply Forall_impl; [|exact Hs]. intros p Hp. apply part_nws_all. exact Hp. }
+  split; [apply map_trim_id; exact Hn|]. intro k. apply name_new_join.
+  rewrite <- (firstn_skipn k parts) in Hn. apply Forall_app in Hn. tauto.
+Qed.
+
+(* Name::new on parts that hold U+1680 (the collector returned such parts before the repair: `a+<U+1680> b` gave a, +, <U+1680>, b): the part
+   that is U+1680 alone is trimmed to nothing, but it still separates: the name is `a+ b`, not `a+b`;
    a part that ends in U+1680 loses it: `a<U+1680>` is the name `a`.  U+180E and U+FEFF are not trimmed *)
 Lemma trim_witness :
   name_new [[97]; [43]; [5760]; [98]]%N = [97; 43; 32; 98]%N /\
@@ -208,20 +246,18 @@ Proof. intro ps. split; [exact (name_new_trimmed ps)|exact (name_new_join ps)]. 
 Lemma white_space_classes : forall c,
   (is_white_space c = true -> is_ws c = true) /\
   (is_ws c = true -> is_white_space c = false -> c = 6158%N \/ c = 8203%N \/ c = 65279%N) /\
-  (is_name_part c = true -> is_white_space c = true -> c = 5760%N) /\
+  (is_name_part c = true -> is_white_space c = false) /\
+  (is_name_part_orig c = true -> is_white_space c = true -> c = 5760%N) /\
   (is_add_sym c = true -> is_white_space c = false).
 Proof.
-  intro c. exact (conj (white_space_is_ws c) (conj (ws_not_white_space c) (conj (name_part_white_space c) (add_sym_not_white_space c)))).
+  intro c. exact (conj (white_space_is_ws c) (conj (ws_not_white_space c) (conj (name_part_not_white_space c)
+    (conj (name_part_white_space_orig c) (add_sym_not_white_space c))))).
 Qed.
 
 Lemma trim_collected : forall inp pos parts cps endpos,
   pos < length inp -> is_name_start (ch inp pos) = true -> collect inp pos = (parts, cps, endpos) ->
-  Forall (fun p => exists l r, p = l ++ trim p ++ r /\ Forall (fun c => c = 5760%N) l /\ Forall (fun c => c = 5760%N) r) parts /\
-  (Forall (fun c => c <> 5760%N) inp -> map trim parts = parts /\ forall k, name_new (firstn k parts) = name_join (firstn k parts)).
-Proof.
-  intros inp pos parts cps endpos Hpos Hstart Hc. split; [exact (collect_trim_ogham inp pos parts cps endpos Hpos Hstart Hc)|].
-  intro Hclean. exact (collect_trim_id inp pos parts cps endpos Hpos Hstart Hclean Hc).
-Qed.
+  map trim parts = parts /\ forall k, name_new (firstn k parts) = name_join (firstn k parts).
+Proof. exact collect_trim_all. Qed.
 
 Lemma name_new_witnesses :
   (name_new [[32; 32; 32; 120; 32; 32; 32]; [32; 121; 32; 32; 32; 32; 32; 32; 9]; [32; 32; 10; 32; 32; 122; 32; 32; 9; 32; 32]]%N = [120; 32; 121; 32; 122]%N /\
